@@ -883,6 +883,33 @@ def multi_line_messages(col, tracer, width):
                                   % (shape, cls.__name__, text, msg[-(len(want_tail or '') + 40):], want_tail), {'message': msg})
 
 
+def lazy_steps_before_the_failure(col, tracer, width):
+    """an earlier step of the chain made a lazy value (an Iter pipeline) that a LATER step consumes - the value spec of a binder, a
+    callable, a reduction - and a step after that fails: the trace follows the chain to the step that really failed (the item
+    evaluations that ran in between belong to the Iter's frame, not to the chain)"""
+    from glom import Iter, Invoke, Sum, S
+    inc = OkFn(9001)
+    cases = [
+        ('binder drains, next step fails', [1, 2, 3], lambda: (Iter().map(inc), S(total=Invoke(sum).specs((T, [T[0]]))), T.nope)),
+        ('callable drains, path fails', [1, 2, 3], lambda: (Iter().map(inc), list, 'nope')),
+        ('below a path, binder drains, two more steps', {'a': [1, 2, 3]}, lambda: ('a', Iter().map(inc), S(n=Invoke(list).specs(T)), S.n, T[5])),
+        ('reduction as binder value, then a failing dict value', [[1], [2]], lambda: (Iter(), S(flat=Sum(init=list)), {'k': T.nope})),
+        ('in a Pipe inside a Coalesce', {'a': [1, 2]}, lambda: Coalesce(Pipe('a', Iter().map(inc), S(n=Invoke(list).specs(T)), T.nope), ('a', T[7]))),
+    ]
+    for desc, target, mk in cases:
+        spec = mk()
+        tracer.reset()
+        got = call(G, target, spec)
+        col.count('evaluations')
+        col.case(('lazy-steps', desc, width), True)
+        if got.ok or not isinstance(got.exc, GlomError):
+            col.violation('C05/no-glom-error-for-a-failing-step', '%s: %r' % (desc, got), None)
+            continue
+        col.count('error_messages_checked')
+        col.count('messages_after_a_lazy_step_was_consumed')
+        check_message(col, str(got.exc), tracer.roots()[-1], target, short(spec, 300), ('lazy-steps', desc), width)
+
+
 def child_main(width, seed, shard, nshards, tier):
     col = Collector('C05', tier, shard, nshards)
     import random
@@ -899,6 +926,7 @@ def child_main(width, seed, shard, nshards, tier):
             exact_fit_boundaries(col, tracer, width)
         equal_values_of_different_types(col, tracer, width)
         multi_line_messages(col, tracer, width)
+        lazy_steps_before_the_failure(col, tracer, width)
         n = 400 if tier == 'quick' else 2500
         for _ in range(n):
             one_case(col, rng, tracer, width)
